@@ -47,6 +47,9 @@ func Verify(manifest []byte) (*ManifestSignature, error) {
 		return nil, err
 	}
 	root := doc.Root()
+	if root == nil {
+		return nil, errors.New("manifest has no root element")
+	}
 	primary, err := xmldsig.Verify(root, "Signature", nil)
 	if err != nil {
 		if _, ok := err.(sigerrors.NotSignedError); ok {
